@@ -1,11 +1,13 @@
 /-
 C12 — feature encoder contract: shape, column order, finiteness, accepts all materialized data,
 lazy = eager construction, unsupported pairings rejected.
-Property theorems only (helper lemmas: TFVerif/Proofs/Encoder.lean, TFVerif/Proofs/Lazy.lean).
+Property theorems only (helper lemmas: TFVerif/Proofs/Encoder.lean, TFVerif/Proofs/EncoderC12.lean,
+TFVerif/Proofs/Lazy.lean).
 Every theorem is for arbitrary batch sizes, column counts, channel counts, parameter values and (where a
 scalar occurs) an arbitrary scalar record `S : SOps R`.
 -/
 import TFVerif.Proofs.Encoder
+import TFVerif.Proofs.EncoderC12
 import TFVerif.Proofs.Lazy
 import TFVerif.Gen.Encoder
 
@@ -185,6 +187,79 @@ theorem bucket_index_in_range (bnd : List R) (x : R) (hb : 2 ≤ bnd.length) :
   omega
 
 example : bucketize toy [1, 2, 3] 0 = 0 ∧ bucketize toy [1, 2, 3] 2 = 1 ∧ bucketize toy [1, 2, 3] 9 = 3 := by decide
+
+/-- `encoding_never_fails` (one stype encoder): an encoder of an admissible class / NA strategy built by
+    `init_modules` from the statistics of `C` columns accepts the materialized block of those columns — whose
+    cells are what the mappers emit for fitted data (`Fitted`: category indices in `[-1, n_c)`, bag entries in
+    `[-1, n_c)`, calendar cells inside the positional / cyclic domain, embedding rows of the fitted total width;
+    numerical cells arbitrary, NaN and ±inf included) — and every batch of it: a single row, the empty selection,
+    repetitions, permutations. `FittedStats` asks that the value an NA strategy imputes is itself a fitted value:
+    for `most_frequent` and the timestamp strategies this follows from "one non-missing cell per column"; for
+    `zeros` on a multicategorical column it is the extra assumption `1 ≤ n_c` (non-empty fitted vocabulary) — see
+    the defect note in the check's report: without it the real encoder raises. -/
+theorem encoding_never_fails (st : Stype) (na : Option NA) (stats : List (ColStat R)) (ch : Nat) (w : Weights R)
+    (post : Post R) (e : Encoder R) (hadm : wiseOk w.cls st na = true)
+    (hinit : initModules S st na stats ch w post = some e) (B : Nat) (feat : Feat R)
+    (hst : feat.stype = st) (hfit : Fitted stats feat) (hstats : FittedStats na stats) :
+    (∃ o, forward S e B stats.length stats.length feat = some o) ∧
+    ∀ idx : List Nat, ∃ o', forward S e idx.length stats.length stats.length (feat.selectRows idx) = some o' ∧
+      o'.b = idx.length ∧ o'.c = stats.length ∧ o'.ch = ch := by
+  obtain ⟨o, ho⟩ := forward_total S st na stats ch w post e hadm hinit B feat hst hfit hstats
+  refine ⟨⟨o, ho⟩, fun idx => ?_⟩
+  obtain ⟨o', h1, h2, h3, h4⟩ := forward_accepts_batch S e B stats.length stats.length feat o idx ho
+  exact ⟨o', h1, h2, h3, h4.trans (initModules_ch S st na stats ch w post e hinit)⟩
+
+def exCatMF : Option (Encoder Int) :=
+  initModules toy .categorical (some .mostFrequent) [.cat 2, .cat 1] 2 (.embedding [[0, 0], [5, 6], [7, 8], [9, 9]]) .none
+
+example : wiseOk (Weights.embedding [[0, 0], [5, 6], [7, 8], [9, 9]] : Weights Int).cls .categorical (some .mostFrequent) = true ∧
+    (∃ e, exCatMF = some e) ∧ (Feat.cat [[1, 0], [-1, -1]] : Feat Int).stype = .categorical ∧
+    Fitted ([.cat 2, .cat 1] : List (ColStat Int)) (.cat [[1, 0], [-1, -1]]) ∧
+    FittedStats (some .mostFrequent) ([.cat 2, .cat 1] : List (ColStat Int)) ∧
+    -- and the hypothesis is not idle: an index outside the fitted range is refused
+    (exCatMF.bind fun e => forward toy e 1 2 2 (.cat [[0, 1]])) = none := by
+  refine ⟨by decide, ⟨_, rfl⟩, rfl, ?_, ?_, by decide⟩
+  · intro r c v h n hn
+    rcases r with _ | _ | r <;> rcases c with _ | _ | c <;> simp [cell, statNumCat] at h hn <;> omega
+  · intro s hs
+    simp only [List.mem_cons, List.not_mem_nil, or_false] at hs
+    rcases hs with rfl | rfl <;> simp
+
+/-- `stypewise_accepts_materialized`: a stype-wise encoder whose per-stype encoders were built (admissible class
+    and NA strategy, `init_modules` on the stats list of the stype's columns) for a non-empty frame whose blocks
+    hold fitted data accepts the frame and returns a `[B, ·, ch]` tensor with names (their order and the column
+    count are `shape_and_names`); by `accepts_every_batch` / `encoding_never_fails` the same holds for every row
+    selection of the frame -/
+theorem stypewise_accepts_materialized (w : Wise R) (tf : List (Enc.Group R)) (B ch : Nat) (hne : tf ≠ [])
+    (hg : ∀ s g, tf.find? (·.st == s) = some g → FittedBlock S w B ch s g) :
+    ∃ x names, wiseForward S w tf = some (x, names) ∧ x.b = B ∧ x.ch = ch := by
+  apply wise_total S w tf B ch hne
+  intro s g hsg
+  obtain ⟨nm, e, na, stats, wt, post, h1, h2, h3, h4, h5, h6, h7, h8, h9, h10⟩ := hg s g hsg
+  refine ⟨nm, e, h1, h2, h7, initModules_ch S s na stats ch wt post e h4, ?_⟩
+  rw [h5, h6]
+  exact forward_total S s na stats ch wt post e h3 h4 g.rows g.feat h8 h9 h10
+
+example : ∃ e1 e2, exEnc = some e1 ∧ exCat = some e2 ∧ exTF ≠ [] ∧
+    ∀ s g, exTF.find? (·.st == s) = some g → FittedBlock toy (exWise e1 e2) 2 2 s g := by
+  refine ⟨_, _, rfl, rfl, by decide, ?_⟩
+  intro s g h
+  cases s <;> simp [exTF] at h
+  · subst h
+    refine ⟨["a", "b"], _, some .mean, exStats, .linear [[1, 2], [3, 4]] [[0, 0], [1, 1]], .relu, rfl, rfl, by decide, rfl,
+      rfl, rfl, rfl, rfl, trivial, ?_⟩
+    intro s hs
+    simp only [exStats, List.mem_cons, List.not_mem_nil, or_false] at hs
+    rcases hs with rfl | rfl <;> trivial
+  · subst h
+    refine ⟨["k"], _, none, [.cat 2], .embedding [[0, 0], [5, 6], [7, 8]], .none, rfl, rfl, by decide, rfl,
+      rfl, rfl, rfl, rfl, ?_, ?_⟩
+    · intro r c v h n hn
+      rcases r with _ | _ | r <;> rcases c with _ | c <;> simp [cell, statNumCat] at h hn <;> omega
+    · intro s hs
+      simp only [List.mem_cons, List.not_mem_nil, or_false] at hs
+      subst hs
+      simp
 
 /-! ### finiteness -/
 
